@@ -71,7 +71,83 @@ def access_of(tok):
     return "cf" if tok.kind in ("jmp", "jcc", "call") else "code"
 
 
+MIPS_XFER = {          # big-endian MIPS32, followed by the delay-slot nop
+    "j": ("08000000", "branch"), "b": ("10000000", "branch"),
+    "bnez": ("15000000", "cbranch"), "jal": ("0c000000", "call"),
+}
+
+
+def run_mips(case):
+    """control transfers with a delay slot: the instruction that names A is
+    not the last one of its block"""
+    from gtirb_rewriting import RewritingContext
+    from gtirb_test_helpers import (add_code_block, add_symbol,
+                                    add_text_section, create_test_module)
+    viol = []
+    ctr = {"retargeted_uses_compared": 0, "edges_compared": 0,
+           "untouched_uses_compared": 0, "invalid_requests": 0,
+           "delay_slot_transfers": 0}
+    ir, m = create_test_module(gtirb.Module.FileFormat.ELF,
+                               gtirb.Module.ISA.MIPS32, ["EXEC"],
+                               byte_order=gtirb.Module.ByteOrder.Big)
+    _, bi = add_text_section(m, address=0x400000)
+    A = add_symbol(m, "A")
+    B = add_symbol(m, "B")
+    nop = bytes(4)
+    blocks = []
+    for kind, pre in case["blocks"]:
+        enc, what = MIPS_XFER[kind]
+        body = bytes.fromhex("25080001") * pre + bytes.fromhex(enc) + nop
+        blk = add_code_block(bi, body, {(4 * pre, 4): gtirb.SymAddrConst(
+            0, A)})
+        blocks.append((blk, what, 4 * pre))
+    ta = add_code_block(bi, bytes.fromhex("03e00008") + nop)
+    tb = add_code_block(bi, bytes.fromhex("03e00008") + nop)
+    A.referent, B.referent = ta, tb
+    ET = gtirb.Edge.Type
+    seq = [b for b, _, _ in blocks] + [ta, tb]
+    for k, (blk, what, off) in enumerate(blocks):
+        ir.cfg.add(gtirb.Edge(blk, ta, gtirb.Edge.Label(
+            type=ET.Call if what == "call" else ET.Branch,
+            conditional=what == "cbranch", direct=True)))
+        if what != "branch":
+            ir.cfg.add(gtirb.Edge(blk, seq[k + 1], gtirb.Edge.Label(
+                type=ET.Fallthrough)))
+    for t in (ta, tb):
+        px = gtirb.ProxyBlock()
+        m.proxies.add(px)
+        ir.cfg.add(gtirb.Edge(t, px, gtirb.Edge.Label(type=ET.Return)))
+    ctx = RewritingContext(m, [])
+    ctx.retarget_symbol_uses(A, B)
+    try:
+        ctx.apply()
+    except Exception as x:  # noqa
+        return {"sig": None, "violations": [{
+            "key": f"retarget:mips:apply-raises:{type(x).__name__}",
+            "msg": repr(x)[:300]}], "counters": ctr}
+    for blk, what, off in blocks:
+        ctr["delay_slot_transfers"] += 1
+        ctr["retargeted_uses_compared"] += 1
+        e = blk.byte_interval.symbolic_expressions.get(blk.offset + off)
+        if e is None or e.symbol is not B:
+            viol.append({"key": "retarget:retargeted-use-wrong-symbol:cf",
+                         "msg": f"mips {what}: {e}"})
+        tgts = [x.target for x in blk.outgoing_edges
+                if x.label.type in (ET.Branch, ET.Call)]
+        ctr["edges_compared"] += 1
+        if tgts != [tb]:
+            viol.append({
+                "key": f"retarget:cfg:edge-not-moved:mips:{what}",
+                "msg": f"targets {[getattr(t, 'offset', t) for t in tgts]}"})
+    return {"sig": "mips:" + ",".join(f"{k}{p}" for k, p in case["blocks"]),
+            "violations": viol, "counters": ctr}
+
+
 def gen_case(rng, tier, index):
+    if index % 40 == 39:
+        return {"w": "mips", "blocks": [
+            [rng.choice(sorted(MIPS_XFER)), rng.randrange(0, 3)]
+            for _ in range(rng.randrange(1, 4))]}
     g = gen_rewrite.Gen(rng, tier, sym_indirect=True)
     case = g.module()
     case["edits"] = []
@@ -192,6 +268,8 @@ def gen_case(rng, tier, index):
 
 
 def run_case(case):
+    if case.get("w") == "mips":
+        return run_mips(case)
     import random
     viol = []
     ctr = {"retargeted_uses_compared": 0, "untouched_uses_compared": 0,
